@@ -532,11 +532,11 @@ impl Writer {
     /// Updates the active file ID and open a new data file with the new active ID.
     #[tracing::instrument(level = "debug", skip(self))]
     fn new_active_datafile(&mut self, fileid: u64) -> Result<(), Error> {
-        self.active_fileid = fileid;
         self.writer = LogWriter::new(log::create(utils::datafile_name(
             self.ctx.conf.path.as_path(),
-            self.active_fileid,
+            fileid,
         ))?)?;
+        self.active_fileid = fileid;
         self.written_bytes = 0;
         Ok(())
     }
